@@ -21,7 +21,7 @@ RULE = ("cases: random recipes with variables fixed by leaf bounds (k,k), by pre
 BUDGET = {"quick": (12, 180, 90), "thorough": (16, 2000, 1200)}
 PYTEST = True     # thorough tier also runs the repository's own tests under these monitors
 MANDATORY = ["judged:same-meaning", "judged:no-constant-left", "contract:AtLeast.reduce", "count:result-is-constant",
-             "count:result-is-compound", "count:after-assume", "count:swap-fixed-pairs", "count:twin-runs"]
+             "count:result-is-compound", "count:after-assume", "count:swap-fixed-pairs", "count:twin-runs", "count:deep-models", "count:reduce-after-rebinding"]
 
 _n = 0
 
@@ -87,7 +87,26 @@ def install(ctx):
     monitor.attach(pg.AtLeast, "reduce", reduce_post, snap)
 
 
+def deep_chain(rng, depth):
+    """a model nested `depth` levels deep with something fixed at the bottom (nothing in the statement bounds the depth)"""
+    bottom_fixed = rng.random() < 0.7
+    node = {"k": rng.choice(["Any", "All"]), "id": None, "args": [{"k": "var", "id": "x", "b": [1, 1] if bottom_fixed else [0, 1]},
+                                                                {"k": "var", "id": "y", "b": [0, 1]}]}
+    for d in range(depth):
+        k = rng.choice(["Any", "All", "AtLeast", "Imply"])
+        leaf = {"k": "var", "id": "l%d" % d, "b": [0, 1]}
+        if k == "Imply":
+            node = {"k": "Imply", "id": None, "args": [leaf, node]}
+        elif k == "AtLeast":
+            node = {"k": "AtLeast", "id": None, "args": [node, leaf], "value": rng.choice([1, 2])}
+        else:
+            node = {"k": k, "id": None, "args": [node, leaf]}
+    return node
+
+
 def gen_case(rng, tier, ctx, i):
+    if rng.random() < 0.03:
+        return {"recipe": deep_chain(rng, rng.randint(34, 48)), "seed": rng.getrandbits(32), "after_assume": rng.random() < 0.5, "swap_fixed": False, "deep": True}
     o = common.varied_opts(rng, tier, p_const_leaf=0.3, p_int=0.45)
     rec = common.model_case(rng, tier, o)
     if rec is None:
@@ -106,7 +125,7 @@ def gen_case(rng, tier, ctx, i):
                 for n in lv:
                     if n["id"] == i:
                         n["b"] = list(b)
-    return common.with_twins(rng, {"recipe": rec, "seed": rng.getrandbits(32), "after_assume": rng.random() < 0.5, "swap_fixed": swap})
+    return common.with_twins(rng, {"recipe": rec, "seed": rng.getrandbits(32), "after_assume": rng.random() < 0.5, "swap_fixed": swap, "reduce_twice": rng.random() < 0.15})
 
 
 def _run_one(case, ctx):
@@ -117,6 +136,23 @@ def _run_one(case, ctx):
     graph, top, info = common.domain(m, allow_prefixed=True)
     if graph[top]["b"][0] == graph[top]["b"][1]:
         raise monitor.OutOfScope()
+    if case.get("deep"):
+        ctx.count("count:deep-models")
+    if case.get("reduce_twice") and not case.get("deep"):
+        # reduce, then an evaluation that names a sub-proposition (the known C09 rebinding changes the object), then reduce again:
+        # the second reduce is judged against the object as it is then
+        comp = [c for c in refmodel.compounds(graph, top) if c != top]
+        if comp:
+            ctx.call("reduce", m.reduce)
+            c = rng.choice(comp)
+            try:
+                m.evaluate({c: rng.choice([0, 1])})
+            except BaseException:      # noqa
+                pass
+            if adapters.validated(m, need_no_prefixed=False) is not None and common.const(m.bounds) is None:
+                ctx.count("count:reduce-after-rebinding")
+                ctx.call("reduce", m.reduce)
+            return
     if case.get("swap_fixed"):
         # the same model with two different leaves fixed at the same constant (mid-point of equal bounds): the two assumed
         # models have the same ids, and their leaf bounds collide under the library's hashes ((lo,hi) vs (mid,mid))
